@@ -340,4 +340,13 @@ pub mod verif {
 	pub fn hook_handle_crit(crit: CritCell) -> Result<(), CriticalError> {
 		ErrorHook::handle_crit(crit)
 	}
+
+	/// The `error_hook` task future itself (not spawned): hands every runtime error received on
+	/// `errors` to `handler` and ends with the critical error the handler raised, if any.
+	pub fn error_hook_task(
+		errors: tokio::sync::mpsc::Receiver<RuntimeError>,
+		handler: crate::changeable::ChangeableFn<ErrorHook, ()>,
+	) -> impl std::future::Future<Output = Result<(), CriticalError>> {
+		super::error_hook(errors, handler)
+	}
 }
